@@ -219,6 +219,13 @@ NO_FAULT_OPS = {'at', 'index', 'front', 'back', 'iterate', 'relocate', 'destroy'
 
 
 def fault_script(model_dir, max_probes=None, seed=1, label_fn=None, epilogue=None, no_fault_ops=None):
+    # (two configurations with the same model share the model directory)
+    from vlib import dir_lock
+    with dir_lock(model_dir):
+        return _fault_script_unlocked(model_dir, max_probes, seed, label_fn, epilogue, no_fault_ops)
+
+
+def _fault_script_unlocked(model_dir, max_probes=None, seed=1, label_fn=None, epilogue=None, no_fault_ops=None):
     """(state, call) of every exported edge whose call may throw: shortest path to the state, then the probed call
     (the harness repeats the execution with the k-th throwing event failing, k = 1, 2, ...), then a fixed epilogue."""
     import pickle
